@@ -2,10 +2,13 @@
 
 // Add-only verification hook for C02 (injected by the build overlay, never part of /repo): runs the
 // real, unexported executeProposal - the place where the 65 signature bytes are assembled -
-// against a caller-supplied pallet.
+// against a caller-supplied pallet; shortens the two package-level periods of watchExecution so that
+// the real Execute returns soon after the runner has marked a delivery as executed.
 package executor
 
 import (
+	"time"
+
 	"github.com/binance-chain/tss-lib/common"
 	"github.com/centrifuge/go-substrate-rpc-client/v4/rpc/author"
 	"github.com/centrifuge/go-substrate-rpc-client/v4/types"
@@ -16,4 +19,11 @@ import (
 func VerifC02ExecuteProposal(bridge BridgePallet, props []*transfer.TransferProposal, sig *common.SignatureData) (types.Hash, *author.ExtrinsicStatusSubscription, error) {
 	e := &Executor{bridge: bridge}
 	return e.executeProposal(props, sig)
+}
+
+// VerifC02SetPeriods sets executionCheckPeriod and signingTimeout and returns the old values.
+func VerifC02SetPeriods(check, timeout time.Duration) (time.Duration, time.Duration) {
+	oc, ot := executionCheckPeriod, signingTimeout
+	executionCheckPeriod, signingTimeout = check, timeout
+	return oc, ot
 }
